@@ -23,7 +23,7 @@ def grid():
     return g, H ** 3
 
 
-def one_case(run, specs, gamma, origin):
+def one_case(run, specs, gamma, origin, check_tau=True):
     from gbasis.evals.density import evaluate_density, evaluate_posdef_kinetic_energy_density
     from gbasis.evals.eval import evaluate_basis
     from gbasis.evals.eval_deriv import evaluate_deriv_basis
@@ -77,7 +77,7 @@ def one_case(run, specs, gamma, origin):
     if abs(rho_int - trS) > 1e-8 * (1 + abs(trS)):
         run.violation(f"∫ rho = {rho_int!r} differs from tr(gamma S) = {trS!r}", dict(rep, signature={"kind": "grid-density"}))
         ok = False
-    if abs(tau_int - trT) > 1e-8 * (1 + abs(trT)):
+    if check_tau and abs(tau_int - trT) > 1e-8 * (1 + abs(trT)):
         run.violation(f"∫ t+ = {tau_int!r} differs from tr(gamma T) = {trT!r}", dict(rep, signature={"kind": "grid-tau"}))
         ok = False
     return ok
@@ -104,6 +104,17 @@ def check(run):
         gamma = random_symmetric(rng, nb, psd=True)
         origin = [0.0, 0.0, 0.0] if k % 2 else [0.25, -0.5, 0.125]
         one_case(run, specs, gamma, np.array(origin))
+    # an indefinite density matrix with an exact zero on the diagonal whose density is nevertheless non-negative everywhere
+    # (positive s-type functions, non-negative matrix elements): the density must still integrate to tr(gamma S)
+    cs = []
+    specs = [ShellSpec(0, [core.snap(rng.uniform(-0.5, 0.5), 8) for _ in range(3)], [core.rand_exp(rng, 0.4, 2.5)], [[1.0]] if i else [[0.8, 0.3]],
+                       sph=bool(i % 2)) for i in range(2)]
+    nb = sum(s_.size for s_ in specs)
+    gamma = np.array([[core.snap(rng.uniform(0.2, 1.0), 8) for _ in range(nb)] for _ in range(nb)])
+    gamma = (gamma + gamma.T) / 2
+    gamma[1, 1] = 0.0
+    one_case(run, specs, gamma, np.zeros(3), check_tau=False)
+    run.count("zero-diagonal density matrix with non-negative density")
 
 
 def replay(run, rep):
